@@ -398,8 +398,11 @@ def _lt(a, b):
     return bool(elem_apply(np.less, a, b))
 
 
-def l_argsort(xs):
-    """Stable insertion sort by forking comparisons; returns index list."""
+def l_argsort(xs, ties_unspecified=False):
+    """Stable insertion sort by forking comparisons; returns index list.
+    With ties_unspecified (np.argsort without kind='stable') tied values make
+    the path inconclusive: NumPy's default order of equal elements is not
+    specified (and is not the stable one on this build)."""
     _used("sort(forking insertion sort)")
     idx = []
     for i in range(len(xs)):
@@ -407,6 +410,10 @@ def l_argsort(xs):
         # stable: move left while xs[i] < xs[idx[pos-1]]
         while pos > 0 and _lt(xs[i], xs[idx[pos - 1]]):
             pos -= 1
+        if ties_unspecified and pos > 0:
+            prev = xs[idx[pos - 1]]
+            if not bool(l_isnan(prev)) and not bool(l_isnan(xs[i])) and bool(elem_apply(np.equal, prev, xs[i])):
+                raise Unsupported("np.argsort of tied values: the order of equal elements is unspecified")
         idx.insert(pos, i)
     return idx
 
@@ -818,7 +825,8 @@ def f_sort(a, axis=-1, kind=None, order=None, **kw):
 
 
 def f_argsort(a, axis=-1, kind=None, order=None, **kw):
-    r = _along_axis_vec(a, axis, l_argsort)
+    unspecified = kind not in ("stable", "mergesort")
+    r = _along_axis_vec(a, axis, lambda xs: l_argsort(xs, ties_unspecified=unspecified))
     return np.array(r.tolist(), dtype=int).reshape(r.shape)
 
 
